@@ -1,8 +1,10 @@
 (* The score GetBestMatchReferFile gives a candidate does not depend on whether the reference is written "name"
    (the analysis: CheckReferFile looks the module up without suffix) or "name.lua" (definition / hover: the first item
-   of GetOpenFileStr) - except for the six module names that occur inside the text "lua" itself (a, l, u, lu, ua, lua),
-   where strings.LastIndex finds the name inside the suffix. Hence the two features choose the SAME file among
-   equally named modules in several directories (features_agree_scored: no uniqueness premise). *)
+   of GetOpenFileStr). Before fixes/C18-score-position.diff (calc_score_g false: strings.LastIndex(cand, name)) this
+   failed for the six module names that occur inside the text "lua" itself (a, l, u, lu, ua, lua), where the search
+   finds the name inside the suffix; the repaired score (calc_score = calc_score_g true: the occurrence of "/" + name)
+   has no exception. Hence the two features choose the SAME file among equally named modules in several directories
+   (features_agree_scored: no uniqueness premise, no excluded name). *)
 From Coq Require Import List Arith PeanoNat NArith ZArith Bool Lia Permutation.
 From LH Require Import Base.Bytes Model.FileIndex Model.ModulePath Spec.ModuleSpec
   Proofs.FileIndexProofs Proofs.ModulePathStr Proofs.MergeDet Proofs.ModulePathProofs Proofs.ModulePathEvents.
@@ -106,15 +108,78 @@ Proof.
 Qed.
 
 (* ---- the score ---- *)
-Lemma calc_score_suffix_indep cur mp c : mp <> [] -> ~ In dot mp -> lua_overlap mp = false ->
+(* before fixes/C18-score-position.diff *)
+Lemma calc_score_suffix_indep_before_fix cur mp c : mp <> [] -> ~ In dot mp -> lua_overlap mp = false ->
   path_suffix (mp ++ lua_ext) c = true ->
-  calc_score cur mp c = calc_score cur (mp ++ lua_ext) c.
+  calc_score_g false cur mp c = calc_score_g false cur (mp ++ lua_ext) c.
 Proof.
   intros Hne Hnd Hov Hs. unfold path_suffix in Hs. apply is_suffix_spec in Hs as [P ->].
-  unfold calc_score.
+  unfold calc_score_g.
   replace (P ++ slash :: mp ++ lua_ext) with ((P ++ [slash]) ++ mp ++ lua_ext) by (rewrite <- app_assoc; reflexivity).
   rewrite (last_index_before_suffix (P ++ [slash]) mp Hne Hnd Hov).
   rewrite (last_index_full_suffix (P ++ [slash]) (mp ++ lua_ext)) by (destruct mp; [contradiction|discriminate]).
+  reflexivity.
+Qed.
+
+(* the repaired score: the last occurrence of "/" + r in P ++ "/" ++ r ++ t (t without '/') is the one at |P|: a later
+   one would have to hold as many '/' as "/" + r inside a proper suffix of r ++ t *)
+Fixpoint nslash (s : list N) : nat :=
+  match s with [] => O | x :: t => (if N.eqb x slash then 1 else 0) + nslash t end.
+
+Lemma nslash_app a b : nslash (a ++ b) = (nslash a + nslash b)%nat.
+Proof. induction a as [|x a IH]; [reflexivity|]. cbn [app nslash]. rewrite IH. lia. Qed.
+
+Lemma nslash_skipn k s : (nslash (skipn k s) <= nslash s)%nat.
+Proof.
+  revert s; induction k as [|k IH]; intros s; [cbn; lia|]. destruct s as [|x s]; [cbn; lia|].
+  cbn [skipn nslash]. specialize (IH s). lia.
+Qed.
+
+Lemma nslash_prefix p s : is_prefix p s = true -> (nslash p <= nslash s)%nat.
+Proof.
+  revert s; induction p as [|x p IH]; intros s H; [cbn; lia|].
+  destruct s as [|y s]; [discriminate|]. cbn in H. apply andb_true_iff in H as [Hx H]. apply N.eqb_eq in Hx. subst y.
+  cbn [nslash]. specialize (IH s H). lia.
+Qed.
+
+Lemma nslash_none t : ~ In slash t -> nslash t = O.
+Proof.
+  induction t as [|x t IH]; intros H; [reflexivity|]. cbn [nslash].
+  destruct (N.eqb_spec x slash) as [->|_]; [exfalso; apply H; left; reflexivity|].
+  rewrite IH; [reflexivity|]. intros Hi. apply H. right. exact Hi.
+Qed.
+
+Lemma last_index_slash_occ P r t : ~ In slash t ->
+  last_index (slash :: r) (P ++ slash :: r ++ t) = Some (length P).
+Proof.
+  intros Ht. set (whole := P ++ slash :: r ++ t). pose proof (last_index_spec (slash :: r) whole) as H.
+  assert (is_prefix (slash :: r) (skipn (length P) whole) = true) as Hocc.
+  { subst whole. rewrite skipn_app, skipn_all, Nat.sub_diag. cbn [skipn app].
+    change (slash :: r ++ t) with ((slash :: r) ++ t). apply is_prefix_refl_app. }
+  assert (length P <= length whole)%nat as HX by (subst whole; rewrite app_length; lia).
+  assert (forall j, (j <= length whole)%nat -> is_prefix (slash :: r) (skipn j whole) = true -> (j <= length P)%nat) as Hmax.
+  { intros j Hj Hp. destruct (Nat.le_gt_cases j (length P)) as [Hle|Hgt]; [exact Hle|]. exfalso.
+    subst whole. rewrite skipn_app in Hp. rewrite (skipn_all2 P) in Hp by lia. cbn [app] in Hp.
+    destruct (j - length P)%nat as [|k] eqn:Ek; [lia|]. cbn [skipn] in Hp.
+    apply nslash_prefix in Hp. pose proof (nslash_skipn k (r ++ t)) as Hk.
+    rewrite nslash_app, (nslash_none t Ht) in Hk. cbn [nslash] in Hp. rewrite N.eqb_refl in Hp. lia. }
+  destruct (last_index (slash :: r) whole) as [i|].
+  - destruct H as [Hi [Hp Hm]]. f_equal. specialize (Hm (length P) HX Hocc). specialize (Hmax i Hi Hp). lia.
+  - rewrite (H (length P) HX) in Hocc. discriminate.
+Qed.
+
+Lemma lua_ext_no_slash : ~ In slash lua_ext.
+Proof. unfold lua_ext, slash. cbn. intros [H|[H|[H|[H|[]]]]]; discriminate. Qed.
+
+(* no exception left *)
+Lemma calc_score_suffix_indep cur mp c :
+  path_suffix (mp ++ lua_ext) c = true ->
+  calc_score cur mp c = calc_score cur (mp ++ lua_ext) c.
+Proof.
+  intros Hs. unfold path_suffix in Hs. apply is_suffix_spec in Hs as [P ->].
+  unfold calc_score, score_deployed, calc_score_g.
+  rewrite (last_index_slash_occ P mp lua_ext lua_ext_no_slash).
+  pose proof (last_index_slash_occ P (mp ++ lua_ext) [] (fun H => H)) as H2. rewrite app_nil_r in H2. rewrite H2.
   reflexivity.
 Qed.
 
@@ -151,14 +216,13 @@ Theorem features_agree_scored disk cfg st files cur m :
   m' <> [] ->
   mem_bytes m' (ignore_refer cfg) = false -> mem_bytes m' (ignore_modules cfg) = false ->
   disk (complete_path (main_dir cfg) (doc_so m')) = false ->
-  lua_overlap (mod_path m') = false ->
   let out := check_refer disk cfg st cur KRequire m in
   let oo := open_outcomes cfg st (fun f => fmem f files) cur (open_list cfg true false m) in
   (r_resolved out = [] /\ oo = [None]) \/
   (exists it c, r_resolved out = [c] /\ oo = [Some (it, c)] /\ path_suffix it c = true /\ In c files /\
                 (it = doc_lua m' \/ it = doc_init m')).
 Proof.
-  intros Hok Hlua He Hds Hfx. cbv zeta. intros Hm Hi1 Hi2 Hso Hov.
+  intros Hok Hlua He Hds Hfx. cbv zeta. intros Hm Hi1 Hi2 Hso.
   apply all_lua_good in Hlua.
   rewrite (open_list_require cfg m (or_introl Hds) Hm). unfold check_refer. rewrite Hi1, Hi2, He, Hfx. simpl andb. cbv iota.
   change (replace_byte dot slash (remove_pre_str m)) with (mod_path (remove_pre_str m)).
@@ -177,7 +241,7 @@ Proof.
       intros c. rewrite (cands_pre true st files mp c Hok Hlua Hnd), (cands_name true st files (mp ++ lua_ext) c Hok Hdl).
       reflexivity.
     - intros c Hc. apply (cands_pre true st files mp c Hok Hlua Hnd) in Hc as [_ Hs].
-      apply calc_score_suffix_indep; assumption. }
+      apply calc_score_suffix_indep; exact Hs. }
   (* the .so item finds nothing among ".lua" files *)
   assert (best_set_fx true cur (mp ++ so_ext) st = []) as Es.
   { assert (has_dot (mp ++ so_ext) = true) as Hd by (apply has_dot_In; apply in_or_app; right; left; reflexivity).
